@@ -2,7 +2,11 @@
 
 package column
 
-import "errors"
+import (
+	"errors"
+
+	"github.com/kelindar/column/commit"
+)
 
 const vMaxRows = 8
 
@@ -262,4 +266,88 @@ func vPickKind(mask int) vKind {
 		}
 	}
 	return ks[vndChoice("kind", n)]
+}
+
+// ---------------------------------------------------------------------------------------
+// change stream bookkeeping
+
+// vStream gathers what the collection emits, either through a user logger or a commit.Channel.
+type vStream struct {
+	log  *vLogger
+	ch   commit.Channel
+	seen int
+	all  []commit.Commit
+}
+
+func vNewStream(useChannel bool) *vStream {
+	s := &vStream{}
+	if useChannel {
+		s.ch = make(commit.Channel, 16)
+	} else {
+		s.log = &vLogger{}
+	}
+	return s
+}
+
+func (s *vStream) logger() commit.Logger {
+	if s.ch != nil {
+		return s.ch
+	}
+	return s.log
+}
+
+// drain returns the commits emitted since the previous call, in emission order.
+func (s *vStream) drain() []commit.Commit {
+	if s.ch != nil {
+		for len(s.ch) > 0 {
+			s.all = append(s.all, <-s.ch)
+		}
+	} else {
+		s.all = s.log.commits
+	}
+	out := s.all[s.seen:]
+	s.seen = len(s.all)
+	return out
+}
+
+// pendingBlocks returns the distinct blocks the running transaction has buffered changes for.
+func (w *vWorld) pendingBlocks() (blocks []commit.Chunk) {
+	for i := 0; i < w.pn; i++ {
+		c := commit.ChunkAt(w.off[w.pRow[i]])
+		dup := false
+		for _, b := range blocks {
+			if b == c {
+				dup = true
+			}
+		}
+		if !dup {
+			blocks = append(blocks, c)
+		}
+	}
+	return
+}
+
+// checkStream asserts the exactly-once / identifiable / per-block ordered contract for the
+// commits of one transaction. lastID holds the highest ID seen per block so far.
+func vCheckStream(got []commit.Commit, want []commit.Chunk, lastID map[commit.Chunk]uint64, allIDs *[]uint64) {
+	vndAssert(len(got) == len(want), "stream: number of commits differs from the number of blocks the transaction changed")
+	for i, c := range got {
+		found := false
+		for _, b := range want {
+			if b == c.Chunk {
+				found = true
+			}
+		}
+		vndAssert(found, "stream: commit for a block the transaction did not change")
+		for j := 0; j < i; j++ {
+			vndAssert(got[j].Chunk != c.Chunk, "stream: two commits for one block from one transaction")
+		}
+		vndAssert(c.ID != 0, "stream: commit ID is zero")
+		for _, id := range *allIDs {
+			vndAssert(id != c.ID, "stream: commit ID is not distinct")
+		}
+		vndAssert(c.ID > lastID[c.Chunk], "stream: commit IDs of a block do not increase in apply order")
+		lastID[c.Chunk] = c.ID
+		*allIDs = append(*allIDs, c.ID)
+	}
 }
